@@ -143,6 +143,7 @@ var c03Fixtures = []string{"flat24", "nest", "tiny", "deep", "samename", "rep3"}
 func TestC03(t *testing.T) {
 	cfg := wlCfg{fixtures: fixturesFromEnv(c03Fixtures), maxRecs: envInt("VERIF_MAXRECS", 60), gen: vt.DefaultGen}
 	cfg.gen.LongList = 300
+	cfg.bigPct = 3
 	rapid.Check(t, func(t *rapid.T) {
 		w := genWorkload(t, cfg)
 		o := checkC03(w)
